@@ -590,10 +590,27 @@ def run_threads(inp):
             return [status(0), status(1)]
 
     obs = []
+    tries = []
+
+    def try_call(tid):
+        # the timed branch of lock_with_timeout: an extra recv_packet(timeout=0) while the receive lock is held
+        with mon.cv:
+            enabled = mon.state[tid] == "idle" and rlock.locked()
+        if enabled:
+            try:
+                client.recv_packet(timeout=0)
+                tries.append(9)
+            except TimeoutError:
+                tries.append(tid)
+            except Exception:
+                tries.append(8)
+        with mon.cv:
+            return [status(0), status(1)]
+
     try:
-        for tid in sched:
-            obs.append(step(tid))
-        out = [obs, [list(x) for x in mon.log], tr.taken, len(tr.script)]
+        for lab in sched:
+            obs.append(step(lab) if lab < 2 else try_call(lab - 2))
+        out = [obs, [list(x) for x in mon.log], tr.taken, len(tr.script), tries]
     finally:
         # teardown: no new calls; serve whatever is parked until everything has returned
         try:
@@ -778,14 +795,21 @@ def _threaded_cases(tier, rng, escalate):
             bufsize = rng.choice([2, 3, 64, 64])
             na, nb = rng.randint(1, 3), rng.randint(1, 3)
             first = rng.choice([0, 1])
-            head = [first, 1 - first] if rng.random() < 0.7 else []     # the second call starts while the first is parked
-            head += [rng.choice([0, 1]) for _ in range(rng.randint(2, 8))]
+            r2 = rng.random()
+            if r2 < 0.5:
+                head = [first, 1 - first]           # the second call starts while the first is parked
+            elif r2 < 0.75:
+                head = [first, 2 + (1 - first), 1 - first]   # ... preceded by a timeout-0 call that finds the lock held
+            else:
+                head = []
+            head += [rng.choice([0, 1, 0, 1, 0, 1, 2, 3]) for _ in range(rng.randint(2, 8))]
             nsteps = sum(len(ch) + 1 for ch in chunks) + na + nb + 3
             tail = [i % 2 for i in range(2 * nsteps)]
             case = mk(fr, buffered, oracle, [], 0, bufsize, 1)
             yield dict(input=[200, case, head + tail, na, nb],
                        tags=["two-threads", fr["name"], "buffered" if buffered else "copying",
                              "second-call-while-first-parked" if len(head) >= 2 and head[0] != head[1] else "uncontended-start",
+                             "lock-timeout-calls" if any(x >= 2 for x in head) else "no-lock-timeout-calls",
                              "one-segment" if len(chunks) == 1 else "several-segments"],
                        nontrivial=bool(len(head) >= 2 and head[0] != head[1]))
 
@@ -813,7 +837,9 @@ def _oracle_threads(inp):
     stream = _stream_of(orc)
     expected, _left = sc.spec_events_py(kind, cfg, impl, stream)
     exp = [[0, e[1]] if e[0] == 0 else [1, 1] for e in expected]
-    _obs, log, _taken, _items = run_impl(inp)
+    _obs, log, _taken, _items, tries = run_impl(inp)
+    if any(t not in (0, 1) for t in tries):
+        return "two threads: recv_packet(timeout=0) with the receive lock held did not raise TimeoutError"
     results = [r for _tid, r in log]
     seen_eof = False
     delivered = []
@@ -890,6 +916,8 @@ def shrink(inp):
         _tag, case, sched, na, nb = inp
         for i in range(len(sched)):
             yield [200, case, sched[:i] + sched[i + 1:], na, nb]
+        if any(x >= 2 for x in sched):
+            yield [200, case, [x for x in sched if x < 2], na, nb]
         if na > 1:
             yield [200, case, sched, na - 1, nb]
         if nb > 1:
